@@ -8,7 +8,7 @@ import re
 from ..core import Checker, Rule, attr_calls, callee_is, calls_in, kwarg, resolved_calls, short
 from ..interp import Pins, find_nodes, unparse
 from ..model import AnalysisError
-from .util import effect_table, enclosing_loop, enclosing_stmt, enum_members, every_iteration_reaches, fmt, inline_displays, is_const, parent, returns_of, same, self_attr_for_param, single_def
+from .util import ancestors, effect_table, enclosing_loop, enclosing_stmt, enum_members, every_iteration_reaches, fmt, inline_displays, is_const, parent, returns_of, same, self_attr_for_param, single_def
 
 P = ("C13", "C01", "C06")
 PG = ("C13", "C02", "C01")
@@ -279,6 +279,36 @@ def _template(ck: Checker, func_name: str, which: str) -> None:
                "groups that differ only in an anonymous argument share their chain tuples: equal (value-predecessor) steps of different groups are counted once", rule="C13.TEMPLATE.anonymous-group")
 
 
+    # the raw group arguments may contain `_`: fine inside the atoms of the condition, unsafe inside the tuple
+    raws = set()
+    for n in nones:
+        comp = next((a for a in ancestors(func, n) if isinstance(a, ast.ListComp)), None)
+        if comp is not None and isinstance(comp.generators[0].iter, ast.Name):
+            raws.add(comp.generators[0].iter.id)
+    ck.need(len(raws) == 1, f"{func_name}: the anonymous-free argument list is derived from the raw group arguments")
+    raw = next(iter(raws))
+    uses = 0
+    for nm in find_nodes(func.node, lambda x: isinstance(x, ast.Name) and x.id == raw and isinstance(x.ctx, ast.Load)):
+        where = None
+        for anc in ancestors(func, nm):
+            if isinstance(anc, ast.ListComp) and any(anc is a for n in nones for a in ancestors(func, n)):
+                where = "definition"
+                break
+            if isinstance(anc, ast.Call):
+                fn = unparse(anc.func)
+                if fn == "SymbolicAtom" or (fn.endswith(".symbol.update") and kwarg(anc, "arguments") is not None):
+                    where = "atom"
+                    break
+            if isinstance(anc, ast.stmt):
+                break
+        if where == "definition":
+            continue
+        uses += 1
+        ck.add(f"{which}: raw group arguments (possibly `_`) only inside atoms of the condition", where == "atom", func, nm, f"`{short(unparse(enclosing_stmt(func, nm)), 100)}` uses `{raw}` " + ("inside a symbolic atom" if where == "atom" else "outside any atom (tuple term)"),
+               "`_` inside a tuple term is a variable nothing binds: gringo rejects the statement as unsafe ('#Anon0 is unsafe')", rule="C13.TEMPLATE.anonymous-safe")
+    ck.need(uses >= 2, f"{func_name}: uses of the raw group arguments found ({uses})")
+
+
 def r_template_elements(ck: Checker) -> None:
     _template(ck, "_replace_elements", "sum element")
     func = ck.func(f"{CLS}._replace_elements")
@@ -310,7 +340,7 @@ def r_execute(ck: Checker) -> None:
 
 
 RULES = [
-    Rule("C13.H.at-most", P, r_at_most),
+    Rule("C13.H.at-most", P + ("C02",), r_at_most),
     Rule("C13.TABLE.agg-analytics", P + ("C15", "C12"), r_agg_analytics),
     Rule("C13.G.element-passes", PG, r_element_passes),
     Rule("C13.get-trigger", PG + ("C03",), r_get_trigger),
